@@ -408,6 +408,9 @@ pub fn run(ctx: &Ctx) -> ! {
     // (vi) tricky texts: multi-octet characters at every alignment (whole and cut inside a character) in every text
     // position; names that collide under a normalisation side by side; look-alikes of the specially treated names
     let mut tricky: Vec<(String, Vec<u8>)> = tricky_text_wire(&MULTIBYTE_LENS);
+    for pos in 0..3 {
+        tricky.extend(ladder_wire(pos));
+    }
     let mut twins = name_twins();
     twins.push((b"".to_vec(), b"a".to_vec()));
     for (i, (a, b)) in twins.into_iter().enumerate() {
